@@ -70,6 +70,11 @@ e("or_cl", S_I, lambda p, t: t.p | False)
 e("and_lc", S_I, lambda p, t: False & t.p)
 e("xor_cl", S_I, lambda p, t: t.p ^ True)
 e("bool_nested", S_I, lambda p, t: (t.p & (t.a > 1)) | ~t.q)
+e("not_or", S_I, lambda p, t: ~(t.p | t.q))
+e("not_and_cmp", S_I, lambda p, t: ~((t.a > 1) & (t.b < 2)))
+e("not_not_or", S_I, lambda p, t: ~~(t.p | (t.a > 0)))
+e("not_xor", S_I, lambda p, t: ~(t.p ^ t.q))
+e("not_when", S_I, lambda p, t: ~p.when(t.a > 1).then(t.p).otherwise(t.q))
 e("bool_demorgan", S_I, lambda p, t: ~(t.p & t.q) ^ (~t.p | ~t.q))
 e("and_cmp_null", S_I, lambda p, t: (t.a > 0) & (t.b > 0))
 e("or_cmp_null", S_I, lambda p, t: (t.a > 0) | (t.b > 0))
@@ -212,4 +217,7 @@ def templates(cfg):
         return t >> p.mutate(x=d.abs(), y=p.max(d, 0), z=d * d, w=-d, tags=None) if False else t >> p.mutate(x=d.abs(), y=p.max(d, 0), w=-d)
 
     out.append(Template("c03.reuse.subexpr", S_I, reuse_sub, props=("C03",), nmax=2))
+    from . import temporal
+
+    out += temporal.templates_for("C03", cfg)
     return out
